@@ -205,11 +205,15 @@ def _replay(idx, h):
                 p.read("s", 10, 7)       # all of "payload": reaches the corrupted record also with 1/n-1 splitting
                 p.read("c", 10, 1)
             else:
+                # the transport goes away while each side waits for more than what has arrived (three of ten bytes):
+                # a truncation, whatever was already received
+                p.op("c", p.c.writeAsync(b"abc"))
+                p.op("s", p.s.writeAsync(b"xyz"))
                 for q in p.pipes:
                     q.transfer()
                     q.eof = True
-                p.read("s", 10, 1)
-                p.read("c", 10, 1)
+                p.read("s", 10, 10)
+                p.read("c", 10, 10)
             steps.append({"e": e, "arg": arg, "c_resumable": bool(session and session.resumable),
                           "c_closed": bool(p.c.closed), "s_closed": bool(p.s.closed)})
             if not (p.c.closed and p.s.closed):
